@@ -370,6 +370,8 @@ private:
 
         ++m_used_size;
 
+        do_ttl_order(e);
+
         do_access(e);
     }
 
@@ -385,7 +387,28 @@ private:
         // push to the end of the ttl list
         m_ttl_list.splice(m_ttl_list.end(), m_ttl_list, e.m_ttl_position);
 
+        do_ttl_order(e);
+
         do_access(e);
+    }
+
+    /**
+     * Keeps the ttl list sorted by expire time.  The element was just written and sits at the end
+     * of the ttl list, which is its place unless update_ttl() shortened the uniform ttl; in that
+     * case move it in front of the elements that expire after it.
+     */
+    auto do_ttl_order(element& e) -> void
+    {
+        auto position = e.m_ttl_position;
+        while (position != m_ttl_list.begin() && m_elements[*std::prev(position)].m_expire_time > e.m_expire_time)
+        {
+            --position;
+        }
+
+        if (position != e.m_ttl_position)
+        {
+            m_ttl_list.splice(position, m_ttl_list, e.m_ttl_position);
+        }
     }
 
     auto do_erase(size_t element_idx) -> void
